@@ -62,7 +62,7 @@ Must == IF ~IsPermAll(out) \/ ProofAltered \/ ParAltered THEN "rej"
 Impl == CASE prf \in {"spliced", "mutated", "truncated"} -> "rej"
           [] prf = "forged"  -> IF BindSimple THEN "rej" ELSE "acc"
           [] ParAltered      -> "rej"
-          [] adv.f = "kshift" -> IF BindStatement THEN "rej" ELSE "acc"
+          [] adv.f \in {"kshift", "kshiftX"} -> IF BindStatement THEN "rej" ELSE "acc"
           [] OTHER           -> IF out = Out0 THEN "acc" ELSE "rej"
 
 -----------------------------------------------------------------------------
@@ -127,6 +127,8 @@ OutputFamilies ==
   \/ \E q \in 1..nq, j \in Slots :
          \/ Give(Adv("replaceX", j, q), Set1(out, q, j, Junk(out[q][j])), prf, par)     \* first component replaced
          \/ Give(Adv("replaceY", j, q), Set1(out, q, j, Junk(out[q][j])), prf, par)     \* second component replaced
+         \* opposite edits on the two components of ONE slot: (Xbar_j + D, Ybar_j - D)
+         \/ Give(Adv("oppXY", j, q),    Set1(out, q, j, Junk(out[q][j])), prf, par)
          \/ Give(Adv("replace", j, q),  Set1(out, q, j, Junk(Ct(Unit(1)))), prf, par)   \* fresh ciphertext of a foreign plaintext
          \/ Give(Adv("rerand", j, q),   Set1(out, q, j, [out[q][j] EXCEPT !.rr = TRUE]), prf, par)
          \/ Give(Adv("scal", j, q),     Set1(out, q, j, [out[q][j] EXCEPT !.v = MulV(2, @)]), prf, par)
@@ -137,6 +139,12 @@ OutputFamilies ==
          \/ (j < j2 /\ Give(Adv("swapXY", j, j2), [out EXCEPT ![q] = [@ EXCEPT ![j] = out[q][j2], ![j2] = out[q][j]]], prf, par))
          \/ (j < j2 /\ Give(Adv("swapX", j, j2),
                             [out EXCEPT ![q] = [@ EXCEPT ![j] = [out[q][j] EXCEPT !.half = TRUE], ![j2] = [out[q][j2] EXCEPT !.half = TRUE]]], prf, par))
+         \* X-only edit on slot j paired with the opposite Y-only edit on slot j2: Xbar_j + D, Ybar_j2 - D
+         \/ (j2 = (j % k) + 1 /\ Give(Adv("oppXYcross", j, j2),
+                 [out EXCEPT ![q] = [@ EXCEPT ![j] = Junk(out[q][j]), ![j2] = Junk(out[q][j2])]], prf, par))
+         \* the kernel shift on the first components only (Ybar untouched)
+         \/ (j2 = j + 1 /\ Kind \in {"pair", "seq"} /\ Give(Adv("kshiftX", j, j2),
+                            [out EXCEPT ![q] = [@ EXCEPT ![j] = Junk(out[q][j]), ![j2] = Junk(out[q][j2])]], prf, par))
          \/ (j < j2 /\ Kind \in {"pair", "seq"} /\ Give(Adv("kshift", j, j2),
                             [out EXCEPT ![q] = [@ EXCEPT ![j] = Junk(out[q][j]), ![j2] = Junk(out[q][j2])]], prf, par))
 
@@ -150,6 +158,10 @@ ProofFamilies ==
   \/ Kind = "pair" /\ Give(Adv("honestlib", 0, 0), out, prf, par)                 \* shuffle.Shuffle with the library's own permutation
   \/ \E i \in 1..Len(Items), e \in {1, 2} : Give(Adv("mutate", i, e), out, "mutated", par)     \* item i, first / last element
   \/ \E m \in 0..(Msgs - 1) : Give(Adv("trunc", m, 0), out, "truncated", par)
+  \* byte-level truncation of the tail: the last a bytes cut off (a = 1, 31), and "trunczero": an honest proof whose
+  \* trailing bytes are 0x00 (fresh prover randomness until the last scalar encodes so) cut by exactly those bytes
+  \/ \E a \in {1, 31} : Give(Adv("truncbytes", a, 0), out, "truncated", par)
+  \/ Give(Adv("trunczero", 0, 0), out, "truncated", par)
   \/ \E m \in 1..(Msgs - 1), side \in {1, 2} : Give(Adv("splice", m, side), out, "spliced", par)  \* verified against output 1 / 2
   \/ Kind \in {"pair", "seq", "biffle"} /\ \E w \in {"G", "H"} : Give(Adv("param", IF w = "G" THEN 1 ELSE 2, 0), out, prf, w)
   \/ Kind = "simple" /\ \E w \in {"G", "Gamma"} : Give(Adv("param", IF w = "G" THEN 1 ELSE 3, 0), out, prf, w)
@@ -193,9 +205,14 @@ ReproveFamilies ==
 GeneratorFamilies ==
   \E a \in {2, 3} : Give(Adv("gen", a, 0), out, prf, par)
 
+\* honest inputs with a neutral-element component in slot 1: a = 1: X_1 = O (blinding factor 0), a = 2: Y_1 = O
+\* (message = -r*H), a = 3: message = O (Y_1 = r*H); simple shuffle: a = 1: x_1 = 0. Verdict: accept.
+IdentityFamilies ==
+  \E a \in (IF Kind = "simple" THEN {1} ELSE {1, 2, 3}) : Give(Adv("ident", a, 0), out, prf, par)
+
 \* simple shuffle: the prover itself lies about y (there is no separate output: X, Y travel inside the proof)
 Adversary == phase = "adv" /\ (OutputFamilies \/ SeqFamilies \/ ProofFamilies \/ TamperFamilies
-                               \/ EquationFamilies \/ SimFamilies \/ ReproveFamilies \/ GeneratorFamilies)
+                               \/ EquationFamilies \/ SimFamilies \/ ReproveFamilies \/ GeneratorFamilies \/ IdentityFamilies)
 
 Verify ==
   /\ phase = "verify"
@@ -213,12 +230,12 @@ Total == Judged => Must \in {"acc", "rej", "free"} /\ Impl \in {"acc", "rej"}
 \* accept only what the property allows: a permutation of re-encryptions, proof and parameters untouched
 AcceptImpliesPerm == Judged /\ Impl = "acc" => IsPermAll(out) /\ ~ProofAltered /\ ~ParAltered
 Refines == Judged => (Must = "acc" => Impl = "acc") /\ (Must = "rej" => Impl = "rej")
-HonestAccepted == Judged /\ adv.f \in {"none", "honestlib", "reprove", "gen"} => Must = "acc"
+HonestAccepted == Judged /\ adv.f \in {"none", "honestlib", "reprove", "gen", "ident"} => Must = "acc"
 \* no adversary family degenerates into the honest case (vacuity guard)
-FamiliesBite == Judged /\ adv.f \notin {"none", "honestlib", "reprove", "gen"} => Must # "acc"
+FamiliesBite == Judged /\ adv.f \notin {"none", "honestlib", "reprove", "gen", "ident"} => Must # "acc"
 \* the classification the families were designed for
 Designed == Judged =>
-  /\ (adv.f \in {"replaceX", "replaceY", "comptamper", "replace", "dup", "sum", "scal", "swapX", "kshift", "seqperm", "detach"} => ~IsPermAll(out))
+  /\ (adv.f \in {"replaceX", "replaceY", "comptamper", "replace", "dup", "sum", "scal", "swapX", "kshift", "kshiftX", "oppXY", "oppXYcross", "seqperm", "detach"} => ~IsPermAll(out))
   /\ (adv.f = "rerand" \/ (adv.f = "swapXY" /\ nq = 1) => Must = "free")
 
 Emit == (phase = "done") => PrintT(<<"TRACE", ToJson(hist)>>)
